@@ -680,6 +680,97 @@ theorem last_update_refs_live {K : PolicyKey → Prop} (hK : KeyU K) (hist : Lis
       have hin := h2.inTier t ht kv hkv
       exact ((h2.exact kv.key kv.val).1 ⟨t, ht, hin.symm, by cases kv; exact hkv⟩).1
 
+/-! ### the datastore tables as folds of the history (independent of the resolver's fields) -/
+
+/-- policy metadata table after a history: last policy update per key, deletions removed -/
+def polHistory (ps : List (PolicyKey × PolMeta)) : List RStep → List (PolicyKey × PolMeta)
+  | [] => ps
+  | .ev (.policy k (some p)) :: t => polHistory (mset k (extractPolicyMetadata p) ps) t
+  | .ev (.policy k none) :: t => polHistory (mdel k ps) t
+  | _ :: t => polHistory ps t
+
+/-- match relation after a history: match-started calls not yet followed by the match-stopped call -/
+def matchedHistory (m : List (PolicyKey × EpKey)) : List RStep → List (PolicyKey × EpKey)
+  | [] => m
+  | .ev (.matchStarted p e) :: t => matchedHistory (sadd (p, e) m) t
+  | .ev (.matchStopped p e) :: t => matchedHistory (sdel (p, e) m) t
+  | _ :: t => matchedHistory m t
+
+/-- local endpoint table after a history -/
+def epHistory (es : List (EpKey × EpData)) : List RStep → List (EpKey × EpData)
+  | [] => es
+  | .ev (.endpoint k (some v)) :: t => epHistory (mset k v es) t
+  | .ev (.endpoint k none) :: t => epHistory (mdel k es) t
+  | _ :: t => epHistory es t
+
+theorem step_tables (r : Resolver) (ev : Event) :
+    (r.step ev).allPolicies = polHistory r.allPolicies [.ev ev] ∧
+    (r.step ev).matched = matchedHistory r.matched [.ev ev] ∧
+    (r.step ev).endpoints = epHistory r.endpoints [.ev ev] := by
+  cases ev with
+  | endpoint k v => cases v <;> exact ⟨rfl, rfl, rfl⟩
+  | policy k v =>
+    simp only [Resolver.step]
+    obtain ⟨_, f2, f3, _, f5, _⟩ := applyPolicy_fields (r.recordPolicy k v) k (v.map extractPolicyMetadata)
+    rw [f2, f3, f5]
+    cases v <;> exact ⟨rfl, rfl, rfl⟩
+  | tier n v => exact ⟨rfl, rfl, rfl⟩
+  | status b => simp only [Resolver.step]; split <;> exact ⟨rfl, rfl, rfl⟩
+  | matchStarted p e => simp only [Resolver.step]; split <;> exact ⟨rfl, rfl, rfl⟩
+  | matchStopped p e => simp only [Resolver.step]; split <;> exact ⟨rfl, rfl, rfl⟩
+
+/-- The resolver's policy table, match relation and endpoint table ARE the folds of the history (no
+update is dropped or invented), whatever flushes happen in between. -/
+theorem runL_tables {r : Resolver} {L : Last} (hist : List RStep) {r' : Resolver} {L' : Last}
+    (hr : runL r L hist = some (r', L')) :
+    r'.allPolicies = polHistory r.allPolicies hist ∧ r'.matched = matchedHistory r.matched hist ∧
+    r'.endpoints = epHistory r.endpoints hist := by
+  induction hist generalizing r L with
+  | nil => simp only [runL, Option.some.injEq, Prod.mk.injEq] at hr; obtain ⟨rfl, _⟩ := hr; exact ⟨rfl, rfl, rfl⟩
+  | cons st t ih =>
+    cases st with
+    | ev e =>
+      obtain ⟨a, b, c⟩ := ih (r := r.step e) hr
+      obtain ⟨a1, b1, c1⟩ := step_tables r e
+      rw [a, b, c, a1, b1, c1]
+      cases e with
+      | endpoint k v => cases v <;> exact ⟨rfl, rfl, rfl⟩
+      | policy k v => cases v <;> exact ⟨rfl, rfl, rfl⟩
+      | tier n v => exact ⟨rfl, rfl, rfl⟩
+      | status b => exact ⟨rfl, rfl, rfl⟩
+      | matchStarted p e => exact ⟨rfl, rfl, rfl⟩
+      | matchStopped p e => exact ⟨rfl, rfl, rfl⟩
+    | flush =>
+      simp only [runL] at hr
+      cases hf : r.flush with
+      | none => simp [hf] at hr
+      | some x =>
+        obtain ⟨r1, calls⟩ := x
+        simp only [hf] at hr
+        obtain ⟨a, b, c⟩ := ih hr
+        obtain ⟨f1, f2, f3, _, _⟩ := flush_fields hf
+        rw [a, b, c, f1, f2, f3]
+        exact ⟨rfl, rfl, rfl⟩
+
+theorem tables_append_flush (hist : List RStep) :
+    (∀ ps, polHistory ps (hist ++ [.flush]) = polHistory ps hist) ∧
+    (∀ m, matchedHistory m (hist ++ [.flush]) = matchedHistory m hist) ∧
+    (∀ es, epHistory es (hist ++ [.flush]) = epHistory es hist) := by
+  induction hist with
+  | nil => exact ⟨fun _ => rfl, fun _ => rfl, fun _ => rfl⟩
+  | cons st t ih =>
+    obtain ⟨a, b, c⟩ := ih
+    cases st with
+    | flush => exact ⟨fun ps => a ps, fun m => b m, fun es => c es⟩
+    | ev e =>
+      cases e with
+      | endpoint k v => cases v <;> exact ⟨fun ps => a ps, fun m => b m, fun es => c _⟩
+      | policy k v => cases v <;> exact ⟨fun ps => a _, fun m => b m, fun es => c es⟩
+      | tier n v => exact ⟨fun ps => a ps, fun m => b m, fun es => c es⟩
+      | status x => exact ⟨fun ps => a ps, fun m => b m, fun es => c es⟩
+      | matchStarted p e => exact ⟨fun ps => a ps, fun m => b _, fun es => c es⟩
+      | matchStopped p e => exact ⟨fun ps => a ps, fun m => b _, fun es => c es⟩
+
 /-! ### `IsSpec` determines the list -/
 
 theorem sorted_ext {α : Type} {less : α → α → Bool} (hs : SWO less) {l₁ l₂ : List α}
